@@ -171,10 +171,14 @@ func (vc *funcVC) run() (err error) {
 		fr.vals[fv] = name
 		vc.typed(name, fv.Type(), st)
 		vc.paramVars[fv.Name()] = tvar{name, vtype{c.sortOf(fv.Type()), fv.Type()}}
+		if _, isPtr := fv.Type().Underlying().(*types.Pointer); isPtr {
+			// go/ssa captures variables by reference: a free variable is the address of the captured cell
+			c.assume(fmt.Sprintf("(distinct %s nil)", name))
+		}
 	}
 	// a method's receiver is non-nil only if the contract says so; for methods checked against an interface
 	// contract the receiver is the dynamic value of a non-nil interface
-	if len(vc.icts) > 0 && len(fn.Params) > 0 {
+	if (len(vc.icts) > 0 || (fn.Signature.Recv() != nil && vc.w.implementsModuleIface(fn))) && len(fn.Params) > 0 && ptrElem(fn.Params[0].Type()) != nil {
 		c.assume(fmt.Sprintf("(distinct %s nil)", fr.vals[fn.Params[0]]))
 		if el := ptrElem(fn.Params[0].Type()); el != nil {
 			c.assume(fmt.Sprintf("(= (tyof %s) %d)", fr.vals[fn.Params[0]], vc.w.typeID(el)))
@@ -1074,6 +1078,8 @@ func (fr *frame) loopTrans(li *loopInfo, st *state, phiVals map[*ssa.Phi]string)
 					}
 				} else if _, isArr := el.Underlying().(*types.Array); !isArr {
 					tr.vars[a.Comment] = tvar{c.loadAt(st, fr.val(a), el), vtype{c.sortOf(el), el}}
+					// the address of an address-taken local: NAME$addr (used by addrof(NAME))
+					tr.vars[a.Comment+"$addr"] = tvar{fr.val(a), vtype{"Ref", a.Type()}}
 				}
 			}
 		}
